@@ -405,8 +405,15 @@ def run_unit(prop, unit, seed, rec, deadline):
     found = None
     try:
         test()
-    except _Violation as e:
-        case, res = st['seen'][str(e.args[0])]
+    except BaseException as e:      # noqa
+        if isinstance(e, (KeyboardInterrupt, SystemExit)) or st['first'] is None:
+            raise
+        if isinstance(e, _Violation) and str(e.args[0]) in st['seen']:
+            case, res = st['seen'][str(e.args[0])]
+        else:
+            # Hypothesis could not reproduce the failure while shrinking (FlakyFailure / exception group): the
+            # property depends on process history (C15, C18 by design). Report the first failing case unshrunk.
+            case, res = st['first']
         first_case, first_res = st['first']
         found = {'bucket': res.bucket, 'msg': res.msg, 'case': case,
                  'first_case': first_case, 'first_bucket': first_res.bucket,
